@@ -162,6 +162,32 @@ class Extract:
                 raise TieBroken(f'{name} at line {n.lineno}: registration the extractor does not understand')
         return out
 
+    def user_filters(self):
+        """(where, column, case_sensitive) for every `<col> = %s` whose column is a user-name column, in front_end.py and query/*.py"""
+        out = []
+        pat = re.compile(r'((?:[A-Za-z_]+\.)?`?user(?:_cs)?`?)\s*=\s*%s')
+        files = [(self.path, self.tree)]
+        qd = os.path.join(os.path.dirname(self.path), 'query')
+        for fn in sorted(os.listdir(qd)) if os.path.isdir(qd) else []:
+            if fn.endswith('.py'):
+                with open(os.path.join(qd, fn), encoding='utf-8') as f:
+                    files.append((os.path.join(qd, fn), ast.parse(f.read())))
+        for path, tree in files:
+            owner_of = {}
+            for fn in ast.walk(tree):
+                if isinstance(fn, (ast.FunctionDef, ast.AsyncFunctionDef)):
+                    for n in ast.walk(fn):
+                        owner_of.setdefault(id(n), fn.name)
+            for n in ast.walk(tree):
+                txt = None
+                if isinstance(n, ast.Constant) and isinstance(n.value, str):
+                    txt = n.value
+                if txt:
+                    for m in pat.finditer(txt):
+                        col = m.group(1).replace('`', '')
+                        out.append((f'{os.path.basename(path)}:{owner_of.get(id(n), "<module>")}', col, col.endswith('_cs')))
+        return sorted(set(out))
+
     def user_can_access_sql(self):
         return self.first_sql('_user_can_access') or ''
 
@@ -182,6 +208,9 @@ def emit(repo):
             f'    isApi := {"true" if "/api/" in r["path"] else "false"}, decorators := [{decs}], '
             f'ownerFilter := {"true" if r["owner_filter"] else "false"} }}')
     uca = ex.user_can_access_sql()
+    mcol = re.search(r'billing_project_users\.`?(user\w*)`?\s*=\s*%s', uca)
+    member_col = mcol.group(1) if mcol else '?'
+    user_filters = ex.user_filters()
     member_filter = bool(re.search(r'billing_project_users', uca) and re.search(r'billing_project_users\.`?user(_cs)?`?\s*=\s*%s', uca)
                          and re.search(r'\bid\s*=\s*%s', uca))
     src = f'''import HailVerif.Model.Access
@@ -195,6 +224,16 @@ def routes : List Route := [
 
 /-- `_user_can_access` selects on `batches.id = %s` joined with `billing_project_users` filtered by the user -/
 def userCanAccessFiltersByMembership : Bool := {"true" if member_filter else "false"}
+
+/-- the column of `billing_project_users` that `_user_can_access` compares with the user name: `user_cs` has the case- and
+accent-sensitive collation utf8mb4_0900_as_cs, `user` the default insensitive one -/
+def userCanAccessColumn : String := {lean_str(member_col)}
+
+/-- every comparison of a column with the user name in the SQL of front_end.py and front_end/query/*.py:
+(function or file, column as written, case-sensitive?) -/
+def userFilters : List (String × String × Bool) := [
+{(',' + chr(10)).join(f'  ({lean_str(a)}, {lean_str(b)}, {"true" if c else "false"})' for a, b, c in user_filters)}
+]
 
 end HailVerif.Generated.BatchRoutes
 '''
